@@ -189,6 +189,11 @@ pub fn disc(pre: &str, post: &str, replace: u32) -> ds::Horizontal {
         replace_count: replace,
     })
 }
+/// A discretionary from explicit element lists (characters, ligatures, kerns, boxes, rules).
+pub fn disc_of(pre: Vec<ds::Horizontal>, post: Vec<ds::Horizontal>, replace: u32) -> ds::Horizontal {
+    let conv = |v: Vec<ds::Horizontal>| -> Vec<ds::DiscretionaryElem> { v.into_iter().filter_map(|h| ds::DiscretionaryElem::try_from(h).ok()).collect() };
+    ds::Horizontal::Discretionary(ds::Discretionary { pre_break: conv(pre), post_break: conv(post), replace_count: replace })
+}
 pub fn order(i: u64) -> GlueOrder {
     match i {
         0 => GlueOrder::Normal,
